@@ -302,25 +302,42 @@ def run(ctx):
                  "the first call for a name no longer stores the snapshot and returns "
                  "the raw values")
     # new key -> raw tuple
+    # `for key in D` or `for key, tup in D.items()`
+    def over_input(s_):
+        it_ = s_.iter
+        if dotted(it_) == din:
+            return True
+        return isinstance(it_, ast.Call) and isinstance(it_.func, ast.Attribute) \
+            and it_.func.attr in ("items", "keys") and dotted(it_.func.value) == din
     outer = [s for s in ast.walk(run_.node) if isinstance(s, ast.For) and s is not lp
-             and dotted(s.iter) == din]
+             and over_input(s)]
     nk = False
+    okey = oval = None
     if outer:
+        tg_ = outer[0].target
+        if isinstance(tg_, ast.Tuple) and len(tg_.elts) == 2:
+            okey, oval = dotted(tg_.elts[0]), dotted(tg_.elts[1])
+        else:
+            okey = dotted(tg_)
         for t in ast.walk(outer[0]):
             if isinstance(t, ast.Try):
                 for h in t.handlers:
                     if handler_catches(h, ["KeyError"]):
                         st = [s for s in h.body if isinstance(s, ast.Assign)]
-                        cont = any(isinstance(s, ast.Continue) for s in h.body)
+                        # the handler ends the treatment of this device: `continue`, or
+                        # the accumulation sits in the try's else
+                        cont = any(isinstance(s, ast.Continue) for s in h.body) or (
+                            bool(t.orelse) and t is outer[0].body[-1])
                         if st and cont and isinstance(st[0].targets[0], ast.Subscript):
                             v = st[0].value
                             sv = src(dotted(v)) if dotted(v) else v
-                            if sv is not None and norm_stmt(sv).replace(" ", "") == \
-                                    f"{din}[{dotted(outer[0].target)}]":
+                            if (oval and dotted(v) == oval) or (
+                                    sv is not None and norm_stmt(sv).replace(" ", "") ==
+                                    f"{din}[{okey}]"):
                                 nk = True
     if outer and not nk:
         # the same decision spelled as a membership test: `if key not in old: ...; continue`
-        kname = dotted(outer[0].target)
+        kname = okey
         for blk in [b_ for b_ in ast.walk(outer[0]) if isinstance(b_, ast.If)]:
             for seq in (blk.body, blk.orelse):
                 st = [s_ for s_ in seq if isinstance(s_, ast.Assign)
@@ -461,13 +478,23 @@ def run(ctx):
              "names; each cache_clear partial binds the name its function passes; "
              "nowrap=False bypasses the wrapper", floor=4)
     names = {}
+
+    def const_of(e):
+        # a literal, or a module-level name bound once to a literal
+        if isinstance(e, ast.Constant):
+            return e.value
+        if isinstance(e, ast.Name):
+            vs_ = repo.mod("psutil").assigns.get(e.id, [])
+            if len(vs_) == 1 and isinstance(vs_[0], ast.Constant):
+                return vs_[0].value
+        return None
     for fn in ("disk_io_counters", "net_io_counters"):
         f = repo.func("psutil", fn)
         fcfg = A.cfg(f)
         wc = [c for c in calls_in(f.node) if dotted(c.func) == "_wrap_numbers"]
         ctx.require(wc, f"{fn}: _wrap_numbers call vanished")
         c = wc[0]
-        nmv = c.args[1].value if len(c.args) > 1 and isinstance(c.args[1], ast.Constant) else None
+        nmv = const_of(c.args[1]) if len(c.args) > 1 else None
         names[fn] = nmv
         guarded = all(("truthy", "nowrap", True) in facts(fcfg, n) for n in fcfg.owners(c))
         raw = dotted(c.args[0]) if c.args else None
@@ -485,7 +512,7 @@ def run(ctx):
                 part = st.value
         pok = isinstance(part, ast.Call) and dotted(part.func) == "functools.partial" \
             and len(part.args) == 2 and dotted(part.args[0]) == "_wrap_numbers.cache_clear" \
-            and isinstance(part.args[1], ast.Constant) and part.args[1].value == nmv
+            and const_of(part.args[1]) is not None and const_of(part.args[1]) == nmv
         if pok:
             ctx.ok("C10.R4", f"{fn}:cache_clear", sample=norm_stmt(part))
         else:
